@@ -115,6 +115,7 @@ func checkC02(c *Ctx) {
 	ruleParaRestStart(c)
 	ruleCloseAtLineStart(c)
 	ruleCollectBound(c)
+	ruleHookEnd(c)
 }
 
 // ROOT-CUT: the Source of a root block ends exactly where the span of the block it carries ends.
